@@ -193,10 +193,6 @@ func c13R1(c *Ctx, gens []*FuncInfo) {
 	total := 0
 	for _, fn := range gens {
 		cfg := cfgParam(fn)
-		if cfg == "" {
-			c.Undec("C13.R1", fn.Key()+": configuration parameter", p.Pos(fn.Decl), fn.Key(), "", "no *SetupConfig parameter")
-			continue
-		}
 		for _, o := range c13Objects(fn) {
 			fams := map[int]bool{}
 			for _, part := range o.parts {
@@ -206,6 +202,11 @@ func c13R1(c *Ctx, gens []*FuncInfo) {
 			}
 			if len(fams) == 0 {
 				continue // family-agnostic object (out-interface rule, user extra routes)
+			}
+			if cfg == "" {
+				// a generator that takes only scalars of the configuration builds nothing per family
+				c.Undec("C13.R1", fn.Key()+": configuration parameter", p.Pos(fn.Decl), fn.Key(), "", "family-specific object in a generator with no *SetupConfig parameter")
+				break
 			}
 			total++
 			key := fmt.Sprintf("%s: %s object", fn.Key(), o.kind)
